@@ -44,6 +44,15 @@ type gOutlier struct {
 	Thr, Vol int
 }
 
+// verStr: the version string of update number u; one update in five re-uses the string of the previous one (a control plane
+// that restarted, or that re-sends under an unchanged version after a subscription change): content counts, not the label.
+func verStr(r *rng, u int) string {
+	if u > 0 && r.chance(20) {
+		return fmt.Sprintf("v%d", u)
+	}
+	return fmt.Sprintf("v%d", u+1)
+}
+
 func clusterWithOutlier(name string, o gOutlier) *anypb.Any {
 	c := &v3clusterpb.Cluster{Name: name, ClusterDiscoveryType: &v3clusterpb.Cluster_Type{Type: v3clusterpb.Cluster_EDS}}
 	if o.Present {
@@ -138,7 +147,7 @@ func runC16(c *ctx) {
 			if uj == nil {
 				uj = []interface{}{}
 			}
-			w.push(mkResp(xdsresource.ClusterTypeURL, fmt.Sprintf("v%d", u+1), fmt.Sprintf("n%d", u+1), anys))
+			w.push(mkResp(xdsresource.ClusterTypeURL, verStr(r, u), fmt.Sprintf("n%d", u+1), anys))
 			updates = append(updates, uj)
 			for _, b := range brs {
 				if b.suite != nil {
@@ -385,7 +394,7 @@ func runC17(c *ctx) {
 			if uj == nil {
 				uj = []interface{}{}
 			}
-			w.push(mkResp(xdsresource.RouteTypeURL, fmt.Sprintf("v%d", u+1), fmt.Sprintf("n%d", u+1), anys))
+			w.push(mkResp(xdsresource.RouteTypeURL, verStr(r, u), fmt.Sprintf("n%d", u+1), anys))
 			updates = append(updates, uj)
 			for _, ct := range cts {
 				if ct.rc != nil {
@@ -523,7 +532,7 @@ func runC18(c *ctx) {
 			if r.chance(30) {
 				anys = append(anys, anyListenerRDS("some-other-listener", "x"))
 			}
-			w.push(mkResp(xdsresource.ListenerTypeURL, fmt.Sprintf("v%d", u+1), fmt.Sprintf("n%d", u+1), anys))
+			w.push(mkResp(xdsresource.ListenerTypeURL, verStr(r, u), fmt.Sprintf("n%d", u+1), anys))
 			o := obj{"pushed": append([]interface{}{}, upd.got...)}
 			if lo != nil {
 				o["limit"] = limitJSON(lo)
